@@ -8,8 +8,9 @@ NOTE_COMMON = ("Trusted: rustc type checking and MIR construction, the fact extr
                "functions (DESIGN 3.5), dependency summaries pinned to Cargo.lock versions (DESIGN 3.6); cryptographic "
                "assumptions where the text says 'modulo'. Numerical behaviour of primitives is not decided. Every path rule is accompanied by the "
                "lemmas that make its reading of the code legitimate: L-PROFILE / L-FEATURES (same summaries with debug assertions off and with the serde/std "
-               "features off), L-CLONE (every Clone impl of the crate is field-wise identity), L-PARAMS (parameter constructors/defaults), reviewed-function "
-               "tables for the KeGroup codec, group-operation, hash-to-scalar and zero-test functions (DESIGN 11.9-11.10).")
+               "features off), L-CLONE (every Clone impl of the crate is field-wise identity), L-PARAMS (parameter constructors/defaults), L-EXPLORED (every "
+               "summarised API function was explored completely and has a path), reviewed-function "
+               "tables for the KeGroup codec, group-operation, hash-to-scalar and zero-test functions (DESIGN 11.9-11.13).")
 
 def _c(tech, text, ref):
     return (tech, text, ref)
